@@ -7,11 +7,12 @@ ID = "C08"
 LEVEL = "fault_enumeration"
 RULE = (
     "seeded HISTORIES of 3-10 computations run one after another on one thread WITHOUT resetting the scheduler; each "
-    "computation is a Tasklang program (sync re-entry nested up to 4 deep, several batch kinds, contexts) with failures "
+    "computation is a Tasklang program (sync re-entry nested up to 4 deep, synchronous waits on shared tasks created by other tasks, several batch kinds, contexts) with failures "
     "drawn from every class: raise at any task step, item error/unset, flush body raising, failing lazy Future, "
     "ErrorFuture, junk, AsyncContext.resume()/pause() raising at their n-th call, an on_before_batch_flush subscriber "
     "raising, the scheduler's own flush() call raising, NonAsyncContext aborts, and runaway task recursion stopped by a lowered MAX_TASK_STACK_SIZE (at top "
-    "level and inside nested sync calls). Probes: at every body step and after every nested sync call returns, "
+    "level and inside nested sync calls). The exception a computation ends with must be one that was injected (not an internal IndexError/KeyError/"
+    "FutureIsAlreadyComputed...). Probes: at every body step and after every nested sync call returns, "
     "get_active_task() is the task running that body (identified through its public args); after the outermost call "
     "returns it is None. After every computation: str(get_scheduler()) and the public attributes show 0 tasks and no "
     "active task, and a canary program run next on the same scheduler must produce exactly the trace (outcome, flush "
@@ -25,7 +26,8 @@ ASSUMPTIONS = [
 UNIT_TIMEOUT = {"quick": 150, "thorough": 2400}
 
 COMMON = dict(
-    p_shared=0.25,
+    p_shared=0.4,
+    p_syncshared=0.5,
     p_item_fault=0.10,
     p_flush_fault=0.12,
     p_wrap=0.4,
@@ -123,7 +125,7 @@ def make_case(cs, rnd):
         slots, leaves = faults.index(prog)
         if leaves:
             struct, nid, top = rnd.choice(leaves)
-            struct[1] = ["runaway", rnd.choice([120, 300, 700])]
+            struct[1] = [rnd.choice(["runaway", "runaway", "lazyrunaway"]), rnd.choice([120, 300, 700])]
             opts["max_stack"] = rnd.choice([50, 100])
             # bodies must not swallow the guard's RuntimeError and continue on a reset scheduler
             for node in prog["nodes"]:
@@ -201,6 +203,7 @@ def run_unit(unit, progress):
             res["evaluations"] += 1
             tl.harvest(rt, c)
             inc("after_sync_checks", getattr(rt, "n_after_sync", 0))
+            inc("sync_waits_on_a_task_created_elsewhere", sum(1 for ev in rt.log if ev[0] == "sync_enter" and ev[2][:1] == ("S",)))
             history.append({"program": prog, "opts": opts, "how": how, "outcome": tl.short(out[:2], 160)})
             ended_exc = out[0] == "exc"
             if ended_exc:
@@ -221,6 +224,15 @@ def run_unit(unit, progress):
                 inc("computations_ended_with_value")
             if rt.evil_fired:
                 pass
+            # ---- the way it ended must be explained by a failure that was injected
+            if ended_exc:
+                d = out[1]
+                explained = (
+                    d[0] in ("UserErr", "UserBaseErr", "TypeError", "Unset", "NonAsync", "BatchingError", "BatchCancelledError")
+                    or (d[0] == "RuntimeError" and "exceeded maximum" in str(d))
+                )
+                if not explained:
+                    rt.violation("computation-ended-with-an-error-nobody-injected", {"exception": tl.short(d, 200), "computation_kind": opts["kind"]})
             # ---- after the outermost call returned
             s, txt, parsed = scheduler_state()
             inc("cleanliness_checks")
@@ -320,6 +332,7 @@ def reach(c, tier):
         "ended_by_before-subscriber",
         "ended_by_NonAsync",
         "ended_by_failing_flush_call",
+        "sync_waits_on_a_task_created_elsewhere",
     ):
         if not c.get(k):
             out.append("%s is zero" % k)
